@@ -46,6 +46,10 @@ def render(h, stub_path):
         # Value::kind() is only used to fill error values on the paths of these harnesses (checked per property); building
         # the recursive ValueKind makes CBMC unwind ValueKind::clone for every Value variant
         attrs.append("#[kani::stub(%s::Value::kind, verif_stub_kind)]" % core_path)
+    if getattr(h, "stub_kind_as", None):
+        # Value::kind() replaced by the constant element kind of the harness' blocks (only sound where every use of the result is
+        # through ValueKind::is_compatible / a test for ValueKind::Reference: Matrix(k, dims) and k behave identically there)
+        attrs.append("#[kani::stub(%s::Value::kind, verif_stub_kind_as_%s)]" % (core_path, h.stub_kind_as.lower()))
     attrs.extend(getattr(h, "attrs", []))
     return "\n".join(attrs) + "\npub fn %s() {\n%s\n}\n" % (h.name, h.text)
 
@@ -58,6 +62,8 @@ def module_text(prop, harnesses, prelude="", extra=""):
     loc = "  pub fn verif_stub_loc(e: MechError) -> MechError { e }\n" if any(getattr(h, "stub_loc", False) for h in harnesses) else ""
     if any(getattr(h, "stub_kind", False) for h in harnesses):
         loc += "  pub fn verif_stub_kind(_v: &Value) -> ValueKind { ValueKind::Empty }\n"
+    for v in sorted(set(getattr(h, "stub_kind_as", None) for h in harnesses) - {None}):
+        loc += "  pub fn verif_stub_kind_as_%s(_v: &Value) -> ValueKind { ValueKind::%s }\n" % (v.lower(), v)
     return ("#[allow(warnings)]\npub mod verif_%s {\n  use super::*;\n  use std::mem::forget;\n"
             "  pub fn verif_stub_format(_a: std::fmt::Arguments<'_>) -> String { String::new() }\n"
             "%s%s\n%s\n}\n"
